@@ -35,6 +35,10 @@ SWITCHES = set()
 EXCLUDED = {}
 
 
+WORD_OPERATORS = {"sqrt", "not", "_not_", "if", "match", "mod", "isa", "isnta", "is", "isnt", "in", "and", "or", "then", "else", "do",
+                  "def", "fin", "return", "raise", "handle", "when", "with", "as", "for", "while", "pass", "_and_", "_or_", "_xor_"}
+
+
 def wrap_spots(l):
     """(start, end) of sub-expressions of line l that can be put between parentheses without changing anything: a prefix
     `x.y` of a longer chain `x.y.z`, the whole right-hand side of a `:=`, a name or number after a binary operator."""
@@ -57,6 +61,8 @@ def wrap_spots(l):
                     and l.count(":=") == 1 and "::" not in l:
                 spots.append((m.start(1), m.end(1)))
     for m in re.finditer(r" (?:\+|-|\*|//|mod) ([a-z_]\w*|\d+)(?![\w.(\[])", l):
+        if m.group(1) in WORD_OPERATORS:
+            continue   # `+ sqrt (1)`: sqrt is a prefix operator, not a name
         spots.append((m.start(1), m.end(1)))
     return spots
 
